@@ -67,6 +67,10 @@ pub enum WsOp {
         /// use the peer id this connection already uses for the torrent, if any
         #[serde(default)]
         sticky: bool,
+        /// the request's numwant field: 0 = number of offers (what clients send), 1 absent,
+        /// 2 Some(0), 3 Some(1), 4 Some(usize::MAX), 5 one less than the number of offers
+        #[serde(default)]
+        numwant: u8,
     },
     /// the receiver of an earlier forwarded offer answers it (resolved by the interpreter from
     /// the offers actually forwarded so far); `keep` leaves it pending so it is answered twice
@@ -218,7 +222,7 @@ pub fn run_ws_case(case: &WsCase, oracles: WsOracles) -> CaseResult {
             WsOp::Announce { .. } | WsOp::AnswerPending { .. } => {
                 // resolve the operation to concrete values
                 let resolved: Option<(usize, Hash20, Hash20, u8, Option<u64>, Option<Vec<u8>>, Option<(Hash20, Hash20)>)> = match op {
-                    WsOp::Announce { conn, t, pid, event, left, offers, answer, sticky } => {
+                    WsOp::Announce { conn, t, pid, event, left, offers, answer, sticky, .. } => {
                         let open: Vec<usize> = (0..conns.len()).filter(|i| conns[*i].open).collect();
                         if open.is_empty() {
                             None
@@ -255,6 +259,10 @@ pub fn run_ws_case(case: &WsCase, oracles: WsOracles) -> CaseResult {
                 let (ci, hash, pidb, event, left, offers, answer) = match resolved {
                     Some(r) => r,
                     None => continue,
+                };
+                let numwant: u8 = match op {
+                    WsOp::Announce { numwant, .. } => *numwant,
+                    _ => 0,
                 };
                 let (event, left, offers, answer) = (&event, &left, &offers, &answer);
                 let pid = &pidb[19];
@@ -321,7 +329,14 @@ pub fn run_ws_case(case: &WsCase, oracles: WsOracles) -> CaseResult {
                     bytes_left: left.map(|v| v.min(usize::MAX as u64) as usize),
                     event: ev,
                     offers: offer_list.clone(),
-                    numwant: offers.as_ref().map(|v| v.len()),
+                    numwant: match numwant % 6 {
+                        1 => None,
+                        2 => Some(0),
+                        3 => Some(1),
+                        4 => Some(usize::MAX),
+                        5 => offers.as_ref().map(|v| v.len().saturating_sub(1)),
+                        _ => offers.as_ref().map(|v| v.len()),
+                    },
                     answer: answer.map(|_| RtcAnswer { t: RtcAnswerType::Answer, sdp: answer_sdp.clone() }),
                     answer_to_peer_id: answer.map(|(p, _)| PeerId(p)),
                     answer_offer_id: answer.map(|(_, o)| OfferId(o)),
@@ -842,8 +857,9 @@ pub fn ws_op(p: WsGen) -> BoxedStrategy<WsOp> {
         offers,
         answer,
         prop_oneof![4 => Just(true), 1 => Just(false)],
+        prop_oneof![5 => Just(0u8), 1 => Just(1u8), 1 => Just(2u8), 1 => Just(3u8), 1 => Just(4u8), 1 => Just(5u8)],
     )
-        .prop_map(|((conn, t, pid), event, left, offers, answer, sticky)| WsOp::Announce {
+        .prop_map(|((conn, t, pid), event, left, offers, answer, sticky, numwant)| WsOp::Announce {
             conn,
             t,
             pid,
@@ -852,6 +868,7 @@ pub fn ws_op(p: WsGen) -> BoxedStrategy<WsOp> {
             offers,
             answer,
             sticky,
+            numwant,
         });
     let answer_pending = (any::<u8>(), prop_oneof![3 => Just(false), 1 => Just(true)])
         .prop_map(|(pick, keep)| WsOp::AnswerPending { pick, keep });
